@@ -141,6 +141,13 @@ CLAIMED.update({
          "auxiliary monitor outside the TLA+ family. Bounds: 2-3 connections, 2-3 message groups each.",
          "TLA+ specs (PgShare, PgConn) + TLC model checking + TLC-generated interleavings replayed on concurrent real "
          "connections + per-connection TLC trace validation (+ -race monitor in thorough)", "4 C15"),
+ "C04": ("TLC explores every malformation class in every phase with continuations and end of input on the bounded PgConn "
+         "model (no callback ever, close after end of input); the cover, valid sessions with transport faults at every "
+         "position, and unclassifiable input (random/mutated bytes, count bombs, gigabyte headers, hostile COPY streams, "
+         "helper fuzzing) run on the real server, each followed by a probe connection; TLC validates reactions, closes, "
+         "probe sessions and the measured allocation per hostile message; a process crash is reported with its input.",
+         CONN_NOTE + " Trusted additionally: TotalAlloc deltas, bounded waits (10 s) used only to detect a hang.",
+         CONN_TECH + "; permissive trace spec (Trace_Robust) for unclassifiable input", "4 C04"),
 })
 NOT_YET = "machinery for this property is not built yet in this revision (planned, see DESIGN.md section 4)"
 
